@@ -99,8 +99,15 @@ var ternaryGoExpr = map[string]func(goexpr.Expr, goexpr.Expr, goexpr.Expr) goexp
 	"SUBSTR":     goexpr.Substr,
 	"REPLACEALL": goexpr.ReplaceAll,
 	"LUA": func(script goexpr.Expr, keys goexpr.Expr, args goexpr.Expr) goexpr.Expr {
-		_keys := keys.(*goexpr.ArrayExpr)
-		_args := args.(*goexpr.ArrayExpr)
+		_keys, ok := keys.(*goexpr.ArrayExpr)
+		if !ok {
+			// reported as an error by goFnExprFor
+			return nil
+		}
+		_args, ok := args.(*goexpr.ArrayExpr)
+		if !ok {
+			return nil
+		}
 		return redis.Lua(script, _keys.Items, _args.Items...)
 	},
 }
@@ -200,7 +207,10 @@ func TableFor(sql string) (string, error) {
 	if err != nil {
 		return "", err
 	}
-	stmt := parsed.(*sqlparser.Select)
+	stmt, ok := parsed.(*sqlparser.Select)
+	if !ok {
+		return "", fmt.Errorf("Not a SELECT statement: %v", sql)
+	}
 	return strings.ToLower(nodeToString(stmt.From[0])), nil
 }
 
@@ -210,7 +220,11 @@ func Parse(sql string) (*Query, error) {
 	if err != nil {
 		return nil, fmt.Errorf("Error parsing %v: %v", sql, err)
 	}
-	return parse(parsed.(*sqlparser.Select))
+	stmt, ok := parsed.(*sqlparser.Select)
+	if !ok {
+		return nil, fmt.Errorf("Not a SELECT statement: %v", sql)
+	}
+	return parse(stmt)
 }
 
 func parse(stmt *sqlparser.Select) (*Query, error) {
@@ -1172,7 +1186,11 @@ func goFnExprFor(e *sqlparser.FuncExpr, fname string) (goexpr.Expr, error) {
 		if err != nil {
 			return nil, err
 		}
-		return tfn(p0, p1, p2), nil
+		ge := tfn(p0, p1, p2)
+		if ge == nil {
+			return nil, fmt.Errorf("Function %v was given parameters of the wrong type", fname)
+		}
+		return ge, nil
 	}
 	vfn, found := varGoExpr[fname]
 	if found {
